@@ -650,6 +650,30 @@ def emit(path_tla, path_json):
             tbool(d['hasMax']), d['maxV'], d['minLen'], tseq(q(m) for m in d['union']))
     L.append('SimpleTypes == %s' % tset(q(k) for k in sorted(st.table)))
     L.append('ST == ' + fun([(k, st_tla(v)) for k, v in sorted(st.table.items())]))
+    # simple types as declared (unflattened) -- compared by C03 with what the library loaded
+    decl = {}
+    for nm, node in list(sch.xstypes.items()) + list(sch.stypes.items()):
+        d = dict(base='', enum=[], pats=[], facets=[], members=[])
+        r = node.find(XS + 'restriction')
+        if r is not None:
+            d['base'] = r.get('base', '')
+            for ch in r:
+                tg = tag(ch)
+                if tg == 'enumeration':
+                    d['enum'].append(ch.get('value'))
+                elif tg == 'pattern':
+                    d['pats'].append(ch.get('value'))
+                elif tg in ('minInclusive', 'maxInclusive', 'minExclusive', 'maxExclusive', 'minLength'):
+                    d['facets'].append((tg, ch.get('value')))
+        u = node.find(XS + 'union')
+        if u is not None:
+            d['members'] = (u.get('memberTypes') or '').split()
+        decl[nm] = d
+    L.append('DeclaredSimple == %s' % tset(q(k) for k in sorted(decl)))
+    L.append('STDecl == ' + fun([(k, '[base |-> %s, enum |-> %s, pats |-> %s, facets |-> %s, members |-> %s]' % (
+        q(v['base']), tseq(q(e) for e in v['enum']), tset(q(e) for e in v['pats']),
+        tset('<<%s,%s>>' % (q(a), q(b)) for a, b in v['facets']), tseq(q(m) for m in v['members'])))
+        for k, v in sorted(decl.items())]))
     def cls_tla(r):
         return tseq('<<%d,%d>>' % (lo, hi) for lo, hi in r)
     L.append('PAT == ' + tseq(aut_tla(g, cls_tla) for (_, g) in st.pats))
